@@ -10,3 +10,7 @@
 (define-fun imax ((a Int) (b Int)) Int (ite (>= a b) a b))
 ; a field reference exists in a traveler (jsonpath.TravelerPathExists), abstract
 (declare-fun pathExists (Any Str) Bool)
+; hcntF(ref, n, lo, hi): the float64 a loop obtains by starting from +0 and adding 1.0 for each of the
+; first n elements v of the float64 slice at ref with lo <= v < hi (C19 histogram buckets); its defining
+; equations are stated, over the current heap, as loop axioms of the function that uses it.
+(declare-fun hcntF (Int Int (_ FloatingPoint 11 53) (_ FloatingPoint 11 53)) (_ FloatingPoint 11 53))
